@@ -362,6 +362,9 @@ struct Explorer {
   {
     if (out_of_time()) { c_exhaustive = false; return; }
     if (execs - c_before >= c_cap) { c_exhaustive = false; return; }
+    // rejection tests against a fixed operand look like literal thresholds: forcing "reject" again and again would
+    // never end, so a path carries at most 12 forced positions (a binding cap is reported as not exhaustive)
+    if (f.size() > 12) { c_exhaustive = false; return; }
     Out o = exec(f);
     judge(o, f);
     if (o.p.horizon || o.r.horizon || o.p.threw) return;
